@@ -8,7 +8,11 @@
 //!   jmharness exec                                -> case lines on stdin, results on stdout
 //!   jmharness tables <file.lean>                  -> measured tables as Lean definitions
 mod common;
+mod docgen;
 mod props;
+mod sched;
+mod selftest;
+mod show;
 mod tables;
 
 use common::*;
@@ -103,6 +107,7 @@ fn main() {
                 writeln!(out, "ORACLE {}", serde_json::to_string(v).unwrap()).unwrap();
             }
         }
+        Some("selftest") => selftest::run(),
         Some("tables") => {
             let s = tables::measure();
             let path = &args[2];
